@@ -337,6 +337,9 @@ pub struct World {
     pub dormant: bool,
     pub spin_limit: u32,
     pub spin_hit: bool,
+    /// children let go of the waker they stored when they complete and when they are dropped (as a
+    /// channel receiver or a timer does); otherwise the stored wakers outlive them as stale wakers
+    pub release_wakers: bool,
     // upstream
     pub up: UpState,
     // FEC closure calls
@@ -398,6 +401,7 @@ impl World {
             dormant: false,
             spin_limit: 2_000,
             spin_hit: false,
+            release_wakers: false,
             up: UpState {
                 remaining: 0,
                 hint: HintShape::Exact,
@@ -933,6 +937,15 @@ fn child_poll_begin(w: &mut World, id: u32, addr: usize, data: usize) -> bool {
     true
 }
 
+/// (called in crate context) the child lets go of the waker it stored, if the scenario says so
+fn release_own_waker(id: u32) {
+    let wk = callback(|| w(|w| if w.release_wakers { w.children.get_mut(id as usize).and_then(|c| c.waker.take()) } else { None }));
+    if let Some(wk) = wk {
+        callback(|| w(|w| w.logf(|| format!("    child {} lets go of its stored waker", id))));
+        drop(wk);
+    }
+}
+
 fn store_waker(id: u32, cx: &Context<'_>) {
     let new = in_crate(|| cx.waker().clone());
     let old = w(|w| w.children[id as usize].waker.replace(new));
@@ -1033,6 +1046,14 @@ impl Drop for ZFut {
 }
 
 fn script_poll<O: Out>(id: u32, addr: usize, cx: &mut Context<'_>) -> Poll<O> {
+    let r = script_poll_inner(id, addr, cx);
+    if r.is_ready() {
+        release_own_waker(id);
+    }
+    r
+}
+
+fn script_poll_inner<O: Out>(id: u32, addr: usize, cx: &mut Context<'_>) -> Poll<O> {
     {
         callback(|| {
             let data = cx.waker().data() as usize;
@@ -1227,6 +1248,8 @@ impl<O: Out> Drop for ScriptFut<O> {
         });
         if !by_crate {
             callback(|| w(|w| child_dropped(w, id, addr)));
+        } else {
+            release_own_waker(id);
         }
         if boom {
             std::panic::resume_unwind(Box::new(ChildPanic(id)));
@@ -1258,6 +1281,16 @@ enum SAct {
 impl Stream for ScriptStream {
     type Item = Tok;
     fn poll_next(self: Pin<&mut Self>, cx: &mut Context<'_>) -> Poll<Option<Tok>> {
+        let id = self.id;
+        let r = self.poll_next_inner(cx);
+        if let Poll::Ready(None) = r {
+            release_own_waker(id);
+        }
+        r
+    }
+}
+impl ScriptStream {
+    fn poll_next_inner(self: Pin<&mut Self>, cx: &mut Context<'_>) -> Poll<Option<Tok>> {
         callback(|| {
             let id = self.id;
             let addr = &*self as *const Self as usize;
@@ -1372,6 +1405,9 @@ impl Drop for ScriptStream {
                 }
             })
         });
+        if by_crate {
+            release_own_waker(id);
+        }
         if boom {
             std::panic::resume_unwind(Box::new(ChildPanic(id)));
         }
